@@ -21,6 +21,7 @@ def read_tree(root):
 
 class Prop(BaseProp):
     ID = "C17"
+    ANCHORS = ['cminx:document', 'cminx:document_single_file', 'cminx.documentation_types:FunctionDocumentation.process']
     LEVEL = "exploration"
     RULE = ("trees and single files with generated module contents; reference = fresh-interpreter CLI run; variants: "
             "repeat in a fresh interpreter, PYTHONHASHSEED in {1,4242,random}, other working directory (absolute and "
